@@ -238,8 +238,14 @@ def run(chk, tier, prop):
                 chk.violation("blocking-wait-spins-after-stop", "wait_on_input spins after the loops were told to stop",
                               dict(kind="screen", prop=prop, case=c), found=True)
         else:
-            chk.violation("impl-hangs", "the implementation hangs on a session that the model finishes with outcomes %s" % m[0],
-                          dict(kind="screen", prop=prop, case=c, model_tail=pretty(m[1])[-30:]), found=True)
+            # the model finishes: run the session once more, alone, with a generous limit (a loaded machine must
+            # not produce alarms); only a session that hangs twice counts as hanging
+            again = screen_impl.run_alone(c)
+            if again and again[0] == "HANG":
+                chk.violation("impl-hangs", "the implementation hangs on a session that the model finishes with outcomes %s" % m[0],
+                              dict(kind="screen", prop=prop, case=c, model_tail=pretty(m[1])[-30:]), found=True)
+            else:
+                chk.hist("hang:slow-machine-retry-ok")
     chk.extra["sessions_compared"] = len(kept)
     chk.extra["sessions_hanging_in_both_model_and_implementation"] = len(hangs)
 
